@@ -287,7 +287,7 @@ Qed.
 Theorem i_apply_op_refines : forall rp fo next t o,
   rc_if (snd (i_apply_op rp fo next t o)) = apply_op fo (iforget t) (pop_of o).
 Proof.
-  intros rp fo next t o. unfold i_apply_op, apply_op, pop_of. cbn [p_op p_path p_from p_val].
+  intros rp fo next t o. unfold i_apply_op, apply_op, apply_op_v, pop_of. cbn [p_op p_path p_from p_val negb]. rewrite !andb_true_r.
   destruct (op_eqb (ip_op o) OSwap && match ip_from o with Some [] => true | _ => false end); [reflexivity|].
   destruct (op_eqb (ip_op o) OTest).
   { destruct (ip_val o) as [v|]; cbn [option_map]; [|reflexivity].
@@ -298,10 +298,13 @@ Proof.
     destruct (nodes_eq fo (iforget x) (iforget v)); reflexivity. }
   destruct (is_root (ip_path o)).
   { destruct (op_eqb (ip_op o) ORemove); [destruct t; reflexivity|].
-    destruct (op_eqb (ip_op o) OReplace || op_eqb (ip_op o) OAdd || op_eqb (ip_op o) OAddCreate); [|reflexivity].
-    destruct (ip_val o) as [v|]; cbn [option_map]; [|reflexivity].
-    destruct v as [vi vp vkl vkey vty vvi vvs vch]. unfold rc_if. cbn [snd fst iforget]. f_equal. f_equal.
-    destruct rp; [apply map_if_set_par | reflexivity]. }
+    destruct (op_eqb (ip_op o) OReplace || op_eqb (ip_op o) OAdd || op_eqb (ip_op o) OAddCreate).
+    { destruct (ip_val o) as [v|]; cbn [option_map]; [|reflexivity].
+      unfold rc_if. cbn [snd fst]. rewrite if_copy_data. reflexivity. }
+    destruct (op_eqb (ip_op o) OMove || op_eqb (ip_op o) OCopy); [|reflexivity].
+    destruct (ip_from o) as [[|s r]|]; try reflexivity.
+    rewrite <- if_find. destruct (i_find t (s :: r)) as [v|]; cbn [opt_if option_map]; [|reflexivity].
+    unfold rc_if. cbn [snd fst]. rewrite if_copy_data. reflexivity. }
   assert (E1 : opt_if (if op_eqb (ip_op o) ORemove || op_eqb (ip_op o) OReplace
                        then match i_detach t (ip_path o) with None => None | Some (t', _) => Some t' end else Some t) =
                (if op_eqb (ip_op o) ORemove || op_eqb (ip_op o) OReplace
@@ -331,6 +334,7 @@ Proof.
   destruct (op_eqb (ip_op o) OSwap).
   2:{ destruct (ip_val o) as [v|]; cbn [option_map]; [apply if_put_or_create | reflexivity]. }
   destruct (ip_from o) as [f|]; [|reflexivity].
+  destruct (seg_nested f (ip_path o)); [reflexivity|].
   rewrite <- if_find. unfold i_locate.
   destruct (i_find t1 f) as [v|]; cbn [opt_if option_map]; [|reflexivity].
   destruct (m_locate (iforget t1) f) as [pf|]; [|reflexivity].
